@@ -87,7 +87,7 @@ Proof.
   unfold member_of. destruct (strip_prefix root f) as [[|c r]|]; try reflexivity.
   rewrite existsb_app. destruct (existsb (fun pt => matches pt (c :: r)) a); reflexivity.
 Qed.
-Lemma effective_app xs ts : effective xs ts = xs ++ ts.
+Lemma effective_app {A} (xs ts : list A) : effective xs ts = xs ++ ts.
 Proof. reflexivity. Qed.
 Lemma member_comm root a b f : member_of root (a ++ b) f = member_of root (b ++ a) f.
 Proof.
@@ -122,7 +122,7 @@ Theorem setmap_filter_rows fs fuel root xs ts more w cfg am sm am' sm' :
     count (names_of cfg) w am
       (fun f => member_of root (effective xs ts) f && negb (member_of root (effective xs (ts ++ more)) f)) k fs.
 Proof.
-  unfold analyse. intros H1 H2.
+  unfold analyse, analyse_cli, analyse_m. intros H1 H2.
   destruct (find_cb fs fuel (member_of root (effective xs ts)) cfg) as [a1|] eqn:E1; [|discriminate].
   destruct (find_cb fs fuel (member_of root (effective xs (ts ++ more))) cfg) as [a2|] eqn:E2; [|discriminate].
   inversion H1; subst am sm. inversion H2; subst am' sm'.
@@ -137,7 +137,7 @@ Theorem exclusion_total fs fuel root xs ts more w cfg am sm :
   fs_wf fs -> analyse fs fuel root xs ts w cfg = Ok (am, sm) ->
   exists sm', analyse fs fuel root xs (ts ++ more) w cfg = Ok (am, sm').
 Proof.
-  unfold analyse. intros Hwf H.
+  unfold analyse, analyse_cli, analyse_m. intros Hwf H.
   rewrite (assoc_independent_wf fs fuel cfg (member_of root (effective xs (ts ++ more))) (member_of root (effective xs ts)) Hwf).
   destruct (find_cb fs fuel (member_of root (effective xs ts)) cfg) as [a1|]; [|discriminate].
   inversion H; subst. eauto.
@@ -154,7 +154,7 @@ Lemma analyse_ext fs fuel root xs ts xs' ts' w cfg :
   (forall f, member_of root (effective xs ts) f = member_of root (effective xs' ts') f) ->
   analyse fs fuel root xs ts w cfg = analyse fs fuel root xs' ts' w cfg.
 Proof.
-  intros H. unfold analyse, find_cb. rewrite (preparse_ext fs _ _ cfg H).
+  intros H. unfold analyse, analyse_cli, analyse_m, find_cb. rewrite (preparse_ext fs _ _ cfg H).
   destruct (preparse fs (member_of root (effective xs' ts')) cfg) as [[]|]; [|reflexivity].
   destruct (find_M fs fuel cfg) as [am|]; [|reflexivity]. rewrite (setmap_ext _ _ _ _ _ fs H). reflexivity.
 Qed.
@@ -190,7 +190,109 @@ Theorem keys_are_spec fs fuel root xs ts w cfg :
 Proof.
   intros Hwf Hacc. destruct (union_S_cb fs fuel (member_of root (effective xs ts)) cfg Hwf Hacc) as (am & E & Hin).
   exists am, (setmap_M (names_of cfg) w (member_of root (effective xs ts)) am fs).
-  split; [unfold analyse; rewrite E; reflexivity|]. split; [|intros k; apply row_is_count].
+  split; [unfold analyse, analyse_cli, analyse_m; rewrite E; reflexivity|]. split; [|intros k; apply row_is_count].
   intros n x. rewrite plats_of_In, Hin. split; [tauto|]. intros H. split; [|exact H].
   destruct H as (es & e & r & Hn & _). unfold names_of. apply dedup_In. apply in_map_iff. exists (n, es). auto.
+Qed.
+
+(* ====================================================================== *)
+(* The same theorems for an ARBITRARY matcher.  [PATS] is any type of pattern
+   lists / code-base descriptions and [member pats f] is `f in CodeBase(..., pats)`.
+   No hypothesis on [member] is needed except where stated:
+   - monotonicity only for the one-sided form of the row equation,
+   - locality ("members lie under [keep]") only for the outside-root statement. *)
+Section AnyMatcher.
+Variable PATS : Type.
+Variable member : PATS -> path -> bool.
+
+Theorem g_assoc_independent fs fuel w cfg p1 p2 am1 sm1 am2 sm2 :
+  analyse_m (member p1) fs fuel w cfg = Ok (am1, sm1) ->
+  analyse_m (member p2) fs fuel w cfg = Ok (am2, sm2) -> am1 = am2.
+Proof.
+  unfold analyse_m. intros H1 H2.
+  destruct (find_cb fs fuel (member p1) cfg) as [a1|] eqn:E1; [|discriminate].
+  destruct (find_cb fs fuel (member p2) cfg) as [a2|] eqn:E2; [|discriminate].
+  inversion H1; inversion H2; subst. eapply assoc_independent; eauto.
+Qed.
+
+Theorem g_total fs fuel w cfg p1 p2 am sm :
+  fs_wf fs -> analyse_m (member p1) fs fuel w cfg = Ok (am, sm) ->
+  exists sm', analyse_m (member p2) fs fuel w cfg = Ok (am, sm').
+Proof.
+  unfold analyse_m. intros Hwf H. rewrite (assoc_independent_wf fs fuel cfg (member p2) (member p1) Hwf).
+  destruct (find_cb fs fuel (member p1) cfg) as [a1|]; [|discriminate]. inversion H; subst. eauto.
+Qed.
+
+Theorem g_rows fs fuel w cfg p am sm :
+  analyse_m (member p) fs fuel w cfg = Ok (am, sm) ->
+  forall k, get k sm = count (names_of cfg) w am (member p) k fs.
+Proof.
+  unfold analyse_m. intros H k. destruct (find_cb fs fuel (member p) cfg); [|discriminate].
+  inversion H; subst. apply row_is_count.
+Qed.
+
+(* rows change exactly by the lines of the files whose membership changed, in both directions *)
+Theorem g_setmap_change fs fuel w cfg p1 p2 am sm1 sm2 :
+  analyse_m (member p1) fs fuel w cfg = Ok (am, sm1) ->
+  analyse_m (member p2) fs fuel w cfg = Ok (am, sm2) ->
+  forall k,
+    get k sm1 + count (names_of cfg) w am (fun f => member p2 f && negb (member p1 f)) k fs =
+    get k sm2 + count (names_of cfg) w am (fun f => member p1 f && negb (member p2 f)) k fs.
+Proof.
+  intros H1 H2 k. rewrite (g_rows _ _ _ _ _ _ _ H1 k), (g_rows _ _ _ _ _ _ _ H2 k).
+  rewrite (count_split (names_of cfg) w am (member p1) (fun f => member p1 f && member p2 f)
+             (fun f => member p1 f && negb (member p2 f)) k fs).
+  - rewrite (count_split (names_of cfg) w am (member p2) (fun f => member p1 f && member p2 f)
+               (fun f => member p2 f && negb (member p1 f)) k fs).
+    + lia.
+    + intros f. destruct (member p1 f), (member p2 f); reflexivity.
+    + intros f. destruct (member p1 f), (member p2 f); reflexivity.
+  - intros f. destruct (member p1 f), (member p2 f); reflexivity.
+  - intros f. destruct (member p1 f), (member p2 f); reflexivity.
+Qed.
+
+(* with a matcher that is monotone between the two lists (more patterns, fewer members):
+   the new rows are the old ones minus the newly excluded files *)
+Theorem g_setmap_filter fs fuel w cfg p1 p2 am sm1 sm2 :
+  (forall f, member p2 f = true -> member p1 f = true) ->
+  analyse_m (member p1) fs fuel w cfg = Ok (am, sm1) ->
+  analyse_m (member p2) fs fuel w cfg = Ok (am, sm2) ->
+  forall k, get k sm1 = get k sm2 +
+    count (names_of cfg) w am (fun f => member p1 f && negb (member p2 f)) k fs.
+Proof.
+  intros Hmono H1 H2 k. pose proof (g_setmap_change _ _ _ _ _ _ _ _ _ H1 H2 k) as H.
+  replace (count (names_of cfg) w am (fun f => member p2 f && negb (member p1 f)) k fs) with 0 in H; [lia|].
+  symmetry. clear H H1 H2. induction fs as [|[f ls] r IH]; cbn [count fold_right fst snd]; [reflexivity|].
+  fold (count (names_of cfg) w am (fun f => member p2 f && negb (member p1 f)) k r). rewrite IH.
+  destruct (member p2 f) eqn:E2; [rewrite (Hmono f E2)|]; reflexivity.
+Qed.
+
+Theorem g_keys_are_spec fs fuel w cfg p :
+  fs_wf fs -> accepted_S fs fuel cfg ->
+  exists am sm, analyse_m (member p) fs fuel w cfg = Ok (am, sm) /\
+    (forall n x, In n (plats_of (names_of cfg) am x) <-> uses_S fs fuel cfg n x) /\
+    (forall k, get k sm = count (names_of cfg) w am (member p) k fs).
+Proof.
+  intros Hwf Hacc. destruct (union_S_cb fs fuel (member p) cfg Hwf Hacc) as (am & E & Hin).
+  exists am, (setmap_M (names_of cfg) w (member p) am fs).
+  split; [unfold analyse_m; rewrite E; reflexivity|]. split; [|intros k; apply row_is_count].
+  intros n x. rewrite plats_of_In, Hin. split; [tauto|]. intros H. split; [|exact H].
+  destruct H as (es & e & r & Hn & _). unfold names_of. apply dedup_In. apply in_map_iff. exists (n, es). auto.
+Qed.
+
+(* files that cannot be members (e.g. outside the root) contribute nothing *)
+Theorem g_outside fs names w am p (keep : path -> bool) :
+  (forall f, member p f = true -> keep f = true) ->
+  setmap_M names w (member p) am fs = setmap_M names w (member p) am (filter (fun fl => keep (fst fl)) fs).
+Proof. apply setmap_filter. Qed.
+End AnyMatcher.
+
+(* -x and the analysis file, at the level of the concatenated list, for any matcher of lists *)
+Theorem g_x_equals_toml {X} (member : list X -> path -> bool) fs fuel (xs ts : list X) w cfg :
+  analyse_cli member fs fuel xs ts w cfg = analyse_m (member (xs ++ ts)) fs fuel w cfg /\
+  analyse_cli member fs fuel xs ts w cfg = analyse_cli member fs fuel [] (xs ++ ts) w cfg /\
+  analyse_cli member fs fuel xs ts w cfg = analyse_cli member fs fuel (xs ++ ts) [] w cfg.
+Proof.
+  unfold analyse_cli. rewrite (effective_app xs ts), (effective_app [] (xs ++ ts)), (effective_app (xs ++ ts) []), app_nil_r.
+  repeat split; reflexivity.
 Qed.
